@@ -245,7 +245,8 @@ func (f *SQLFormatter) formatSetOperation(stmt *ast.SetOperation) error {
 // formatInsert formats INSERT statements
 func (f *SQLFormatter) formatInsert(stmt *ast.InsertStatement) error {
 	f.writeKeyword("INSERT INTO")
-	f.builder.WriteString(" " + stmt.TableName)
+	f.builder.WriteString(" ")
+	f.formatQualifiedName(stmt.TableName)
 
 	if len(stmt.Columns) > 0 {
 		f.builder.WriteString(" (")
@@ -285,10 +286,12 @@ func (f *SQLFormatter) formatInsert(stmt *ast.InsertStatement) error {
 // formatUpdate formats UPDATE statements
 func (f *SQLFormatter) formatUpdate(stmt *ast.UpdateStatement) error {
 	f.writeKeyword("UPDATE")
-	f.builder.WriteString(" " + stmt.TableName)
+	f.builder.WriteString(" ")
+	f.formatQualifiedName(stmt.TableName)
 
 	if stmt.Alias != "" {
-		f.builder.WriteString(" " + stmt.Alias)
+		f.builder.WriteString(" ")
+		f.formatIdentifier(stmt.Alias)
 	}
 
 	if len(stmt.Assignments) > 0 {
@@ -322,10 +325,12 @@ func (f *SQLFormatter) formatUpdate(stmt *ast.UpdateStatement) error {
 // formatDelete formats DELETE statements
 func (f *SQLFormatter) formatDelete(stmt *ast.DeleteStatement) error {
 	f.writeKeyword("DELETE FROM")
-	f.builder.WriteString(" " + stmt.TableName)
+	f.builder.WriteString(" ")
+	f.formatQualifiedName(stmt.TableName)
 
 	if stmt.Alias != "" {
-		f.builder.WriteString(" " + stmt.Alias)
+		f.builder.WriteString(" ")
+		f.formatIdentifier(stmt.Alias)
 	}
 
 	if stmt.Where != nil {
@@ -542,7 +547,7 @@ func (f *SQLFormatter) formatWithClause(with *ast.WithClause) error {
 		if i > 0 {
 			f.builder.WriteString(", ")
 		}
-		f.builder.WriteString(cte.Name)
+		f.formatIdentifier(cte.Name)
 
 		if len(cte.Columns) > 0 {
 			f.builder.WriteString(" (")
@@ -550,7 +555,7 @@ func (f *SQLFormatter) formatWithClause(with *ast.WithClause) error {
 				if j > 0 {
 					f.builder.WriteString(", ")
 				}
-				f.builder.WriteString(col)
+				f.formatIdentifier(col)
 			}
 			f.builder.WriteString(")")
 		}
@@ -971,12 +976,13 @@ func (f *SQLFormatter) formatTableReference(table *ast.TableReference) {
 		f.builder.WriteString(")")
 	} else {
 		// Format regular table name
-		f.builder.WriteString(table.Name)
+		f.formatQualifiedName(table.Name)
 	}
 	if table.Alias != "" {
 		f.builder.WriteString(" ")
 		f.writeKeyword("AS")
-		f.builder.WriteString(" " + table.Alias)
+		f.builder.WriteString(" ")
+		f.formatIdentifier(table.Alias)
 	}
 }
 
@@ -1065,6 +1071,17 @@ func (f *SQLFormatter) formatIdentifier(ident string) {
 		f.builder.WriteString("\"")
 	} else {
 		f.builder.WriteString(ident)
+	}
+}
+
+// formatQualifiedName formats a possibly schema-qualified object name
+// ("schema.table"), quoting each part that needs it.
+func (f *SQLFormatter) formatQualifiedName(name string) {
+	for i, part := range strings.Split(name, ".") {
+		if i > 0 {
+			f.builder.WriteString(".")
+		}
+		f.formatIdentifier(part)
 	}
 }
 
